@@ -236,10 +236,15 @@ CONTRACTS = [
       ensures={"result": "all(count(result, n) == (1 if n in V(self) else 0) for n in Node)"}),
     C("get_edges", params={"metadata": "Bool"}, fixed={"metadata": False}, result="Bag[Key]", pure=True,
       ensures={"result": "all(count(result, k) == (1 if k in E(self) else 0) for k in Key)"}),
-    C("get_incident_edges", params={"node": "Node"}, result="Bag[Key]", pure=True, requires={"wf": "wf(self)"},
-      raises={"ValueError": "node not in V(self)"},
-      ensures={"result": "all(count(result, k) == (1 if k in E(self) and node in fst(k) else 0) for k in Key)"},
+    C("get_incident_edges", params={"node": "Node", "order": "Opt[Int]", "size": "Opt[Int]"}, result="Bag[Key]", pure=True, requires={"wf": "wf(self)"},
+      raises={"ValueError": "node not in V(self) or (order is not None and size is not None)"},
+      ensures={"result": "all(count(result, k) == (1 if k in E(self) and node in fst(k) and sel(self, k, order, size, False) else 0) for k in Key)"},
       properties=["C04", "C08"]),
+    Contract("degree[MultiplexHypergraph]", "hypergraphx/measures/degree.py", ["degree"], properties=["C04", "C08"],
+      params={"hg": "Obj[MultiplexHypergraph]", "node": "Node", "order": "Opt[Int]", "size": "Opt[Int]"}, result="Int", pure=True,
+      requires={"wf": "wf(hg)"},
+      raises={"ValueError": "(order is not None and size is not None) or node not in V(hg)"},
+      ensures={"result": "result == card({k for k in E(hg) if node in fst(k) and sel(hg, k, order, size, False)})"}),
     C("remove_node", params={"node": "Node", "keep_edges": "Bool"}, fixed={"keep_edges": False},
       requires={"wf": "wf(self)"},
       raises={"ValueError": "node not in V(self)"},
